@@ -15,7 +15,7 @@ for sid in ids:
         continue
     meta = json.load(open(os.path.join(d, 'meta.json')))
     prop, letter = sid.split('-')
-    file_letter = 'A' if letter in ('H', 'X', 'Y', 'Z', 'W', 'V', 'U', 'T', 'S', 'R', 'Q') else letter
+    file_letter = 'A' if letter in ('H', 'X', 'Y', 'Z', 'W', 'V', 'U', 'T', 'S', 'R', 'Q', 'P') else letter
     tmp = tempfile.mkdtemp(prefix='sr-', dir=os.environ.get('PV_TMP', '/var/tmp'))
     try:
         shutil.copy(os.path.join(d, 'patch.diff'), os.path.join(tmp, 'patch%s.diff' % file_letter))
